@@ -281,6 +281,9 @@ def run(ctx):
             elif r < 0.6:
                 argv = [rng.choice(["-bogus", "-", "x", ")", ",", "-a", "!", "-newerXY", "-exec", "(", "-printf"])
                         for _ in range(rng.randint(1, 5))]
+            elif r < 0.66:
+                # an operator left dangling directly before a closing parenthesis, with more of the expression after it
+                argv = ["("] + g.seq(rng.choice([0, 1])) + [rng.choice(["-o", "-a", ",", "!", "-not", "-or", "-and"]), ")"] + g.seq(rng.choice([0, 1, 1, 2]))
             if len(argv) > 14:
                 argv = argv[:14]
             # output files are created while the command line is parsed: keep their targets to /dev/null or an uncreatable path, so that
